@@ -76,7 +76,20 @@ func (c *vCall) String() string {
 	return "done?"
 }
 
-func bubble(t *testing.T, f func()) { synctest.Test(t, func(t *testing.T) { f() }) }
+var inBubble bool
+
+// bubble runs f inside the worker's synctest bubble (created on first use, never nested).
+func bubble(t *testing.T, f func()) {
+	if inBubble {
+		f()
+		return
+	}
+	synctest.Test(t, func(t *testing.T) {
+		inBubble = true
+		defer func() { inBubble = false }()
+		f()
+	})
+}
 func wait()                         { synctest.Wait() }
 
 func runExplore(t *testing.T, rep *report.R, bound int, scenario func(c *choice.Ctx)) choice.Stats {
@@ -89,11 +102,17 @@ func runExplore(t *testing.T, rep *report.R, bound int, scenario func(c *choice.
 		rep.Note("replayed: " + strings.Join(c.Trace(), " "))
 		return choice.Stats{Executions: 1}
 	}
-	st := choice.Explore(opt, func(c *choice.Ctx) bool {
-		report.SetCurrent(c)
-		bubble(t, func() { scenario(c) })
-		report.FlushCurrent()
-		return rep.NViolations() < 50
+	var st choice.Stats
+	// One bubble per worker process: objects recycled through global pools (channels, timers) may then
+	// legitimately travel from one execution to the next, as they do between requests in a real process.
+	bubble(t, func() {
+		st = choice.Explore(opt, func(c *choice.Ctx) bool {
+			report.SetCurrent(c)
+			scenario(c)
+			synctest.Wait()
+			report.FlushCurrent()
+			return rep.NViolations() < 50
+		})
 	})
 	rep.AddTransitions(st.ChoicePoints)
 	if st.Capped {
